@@ -228,6 +228,8 @@ struct BodyV<'a> {
     closures: Vec<(usize, usize, usize, usize, Vec<String>, bool)>, // (or1.start, body.start, body.end, head_end, param names, body_is_block)
     stmt_stack: Vec<(usize, usize)>,
     calls: Vec<(String, (usize, usize))>,
+    breaks: Vec<(usize, usize)>,
+    returns: Vec<(usize, usize)>, // enclosing statement of each `return` expression, in source order
     fresh: Vec<(usize, String)>, // (after byte, var)
     strlits: Vec<String>,
     errs: Vec<String>,
@@ -353,6 +355,18 @@ impl<'a, 'ast> Visit<'ast> for BodyV<'a> {
             }
         }
         syn::visit::visit_expr_call(self, c);
+    }
+    fn visit_expr_return(&mut self, r: &'ast syn::ExprReturn) {
+        if let Some(st) = self.stmt_stack.last() {
+            self.returns.push(*st);
+        }
+        syn::visit::visit_expr_return(self, r);
+    }
+    fn visit_expr_break(&mut self, r: &'ast syn::ExprBreak) {
+        if let Some(st) = self.stmt_stack.last() {
+            self.breaks.push(*st);
+        }
+        syn::visit::visit_expr_break(self, r);
     }
     fn visit_expr_loop(&mut self, l: &'ast syn::ExprLoop) {
         let (o, _) = br(l.body.brace_token.span.open());
@@ -498,7 +512,7 @@ fn gen_fn(ctx: &mut Ctx, fs_: &FnSpec) -> R<()> {
         _ => return fail(format!("{} is not a function", fs_.path)),
     };
     let _ = vis_start;
-    let mut v = BodyV { src: text, edits: vec![], seq: 0, loops: vec![], closures: vec![], stmt_stack: vec![], calls: vec![], fresh: vec![], strlits: vec![], errs: vec![] };
+    let mut v = BodyV { src: text, edits: vec![], seq: 0, loops: vec![], closures: vec![], stmt_stack: vec![], calls: vec![], breaks: vec![], returns: vec![], fresh: vec![], strlits: vec![], errs: vec![] };
     attr_edits(attrs, &mut v.edits, &mut v.seq, text);
     v.visit_block(block);
     if !v.errs.is_empty() {
@@ -555,7 +569,12 @@ fn gen_fn(ctx: &mut Ctx, fs_: &FnSpec) -> R<()> {
     }
     if hoist {
         // E9
-        let first = block.stmts.first().ok_or(Fail(format!("anchor lost: {} has an empty body", fs_.path)))?;
+        // the first statement that is not a (dropped, E4) log line
+        let first = block
+            .stmts
+            .iter()
+            .find(|s| !matches!(s, syn::Stmt::Macro(m) if BodyV::macro_path(&m.mac).starts_with("log::")))
+            .ok_or(Fail(format!("anchor lost: {} has an empty body", fs_.path)))?;
         let ok = (|| -> Option<(String, (usize, usize))> {
             if let syn::Stmt::Local(l) = first {
                 let mut names = vec![];
@@ -611,7 +630,7 @@ fn gen_fn(ctx: &mut Ctx, fs_: &FnSpec) -> R<()> {
         let stmt_text = &text[st.0..st.1];
         let stmt_e3 = stmt_text.replacen("self.storage.txn(", "verif_try!(self.storage.txn(", 1).replacen(")?;", "));", 1);
         twin = Some(format!(
-            "    // E9 twin: exactly the first statement of {p} (`{orig}`), then hand the transaction out\n    fn {name}__open(&self, {argname}: Uuid) -> (r: Result<Box<dyn StorageTxn + '_>, ServerError>)\n        requires\n            self.storage.may_open(),\n        ensures\n            r is Ok ==> open_post(r->Ok_0@, {argname}),\n    {{\n        {stmt}\n        Ok(txn)\n    }}\n",
+            "    // E9 twin: exactly the first statement of {p} (`{orig}`), then hand the transaction out\n    fn {name}__open(&self, {argname}: Uuid) -> (r: Result<Box<dyn StorageTxn + '_>, ServerError>)\n        requires\n            self.can_open(),\n        ensures\n            r is Ok ==> open_post(r->Ok_0@, {argname}),\n    {{\n        {stmt}\n        Ok(txn)\n    }}\n",
             p = fs_.path,
             orig = stmt_text.trim(),
             name = sig.ident,
@@ -758,6 +777,18 @@ fn gen_fn(ctx: &mut Ctx, fs_: &FnSpec) -> R<()> {
                 let k: usize = k.parse().map_err(|_| Fail("bad loop index".into()))?;
                 v.loops.get(k - 1).ok_or(Fail(format!("anchor lost: {} has no loop #{k}", fs_.path)))?.body_close
             }
+            ["before_return", k] => {
+                let k: usize = k.parse().map_err(|_| Fail("bad return index".into()))?;
+                v.returns.get(k - 1).ok_or(Fail(format!("anchor lost: {} has no return #{k}", fs_.path)))?.0
+            }
+            ["before_break", k] => {
+                let k: usize = k.parse().map_err(|_| Fail("bad break index".into()))?;
+                v.breaks.get(k - 1).ok_or(Fail(format!("anchor lost: {} has no break #{k}", fs_.path)))?.0
+            }
+            ["after_loop", k] => {
+                let k: usize = k.parse().map_err(|_| Fail("bad loop index".into()))?;
+                v.loops.get(k - 1).ok_or(Fail(format!("anchor lost: {} has no loop #{k}", fs_.path)))?.body_close + 1
+            }
             [w @ ("after_call" | "before_call"), name, k] => {
                 let k: usize = k.parse().map_err(|_| Fail("bad call index".into()))?;
                 let hits: Vec<&(String, (usize, usize))> = v.calls.iter().filter(|(n, _)| n == name).collect();
@@ -776,12 +807,19 @@ fn gen_fn(ctx: &mut Ctx, fs_: &FnSpec) -> R<()> {
         let idx = all_clauses.len();
         let body = c2.text.trim().to_string();
         all_clauses.push(c2);
-        let pre = "\n        proof ";
+        let is_ghost = all_clauses[idx].kind == "ghost";
+        let body = if is_ghost {
+            body.trim().trim_start_matches('{').trim_end_matches('}').trim().to_string()
+        } else {
+            body
+        };
+        let pre = if is_ghost { "\n        " } else { "\n        proof " };
         let t = format!("{pre}{body}\n        ");
         // stmt-start anchors must not land inside an earlier statement's edit; before_* inserts
         // before the statement, after_* after it
         v.seq += 1;
-        let seq = v.seq;
+        // insertions *before* a statement must precede every other edit starting at the same byte (e.g. E3's `verif_try!(`)
+        let seq = if parts[0].starts_with("before_") { 0 } else { v.seq };
         v.edits.push(Edit { start: pos, end: pos, text: t, rule: "E2".into(), seq, marks: vec![(idx, pre.len(), body.len())] });
     }
     // E13
@@ -1119,8 +1157,8 @@ fn run() -> R<()> {
                                         cur = Cur::Closure(k, v.len() - 1);
                                     }
                                 }
-                                "proof" => {
-                                    // proof <anchor...> [id tags] {
+                                "proof" | "ghost" => {
+                                    // proof <anchor...> [id tags] {   (ghost: the block's statements are inserted bare, e.g. `let ghost x = y;`)
                                     let (anchor, after) = match rest.find('[') {
                                         Some(p) => (rest[..p].trim().to_string(), rest[p..].to_string()),
                                         None => {
@@ -1129,7 +1167,7 @@ fn run() -> R<()> {
                                         }
                                     };
                                     let (id, tags, text) = parse_clause_head(&after);
-                                    f.proofs.push((anchor, Clause { kind: "proof".into(), id, tags, text, place: String::new() }));
+                                    f.proofs.push((anchor, Clause { kind: first.into(), id, tags, text, place: String::new() }));
                                     cur = Cur::Proof(f.proofs.len() - 1);
                                 }
                                 "}" => {
